@@ -1,4 +1,4 @@
-CONSTANTS Q = 2 NClient = 2 NServer = 1 Calls = {k1, k2} CloseClosesChan = TRUE
+CONSTANTS Q = 2 NClient = 2 NServer = 1 Calls = {k1, k2} CloseClosesChan = TRUE DrainByCount = FALSE
 INIT Init
 NEXT Next
 CHECK_DEADLOCK FALSE
